@@ -175,6 +175,16 @@ func addLatenessObjective(
 		return nil, err
 	}
 
+	// The target time expression is shared with the earliness objective, which
+	// sets the target of the stops that have an early arrival penalty. Only the
+	// stops that have a late arrival penalty are penalized for arriving late.
+	for _, stop := range model.Stops() {
+		err = latenessObjective.SetFactor(0.0, stop)
+		if err != nil {
+			return nil, err
+		}
+	}
+
 	stopsHaveTargets, err := addLatenessTargetStops(input, model, latenessObjective)
 
 	if err != nil {
